@@ -488,24 +488,15 @@ def r5(db, rep):
         return
 
     def effects(stmt, env, tf):
+        """(kind, what) effects of the statements executed under the given inputs (early returns respected)"""
         out = []
-        if stmt is None:
-            return out
-        k = stmt["k"]
-        if k == "CompoundStmt":
-            for x in stmt.get("c", []):
-                out += effects(x, env, tf)
-            return out
-        if k == "IfStmt":
-            real = [x for x in stmt["c"] if x is not None]
-            c = ieval.ev(f, real[0], dict(env, __termfn__=tf), {})
-            return effects(real[1] if c else (real[2] if len(real) > 2 else None), env, tf)
-        for x in facts.walk(stmt):
-            if x["k"] == "CXXDeleteExpr":
-                a = facts.strip_all(x["c"][0])
-                out.append(("delete", "stored" if a.get("var") == stored else "new" if a.get("var") == pnew else "?"))
-            if x["k"] == "BinaryOperator" and x.get("op") == "=" and strip(x["c"][0]).get("var") == stored:
-                out.append(("store", "new" if facts.strip_all(x["c"][1]).get("var") == pnew else "?"))
+        for kind, node in ieval.trace(f, stmt, dict(env, __termfn__=tf)):
+            for x in facts.walk(node):
+                if x["k"] == "CXXDeleteExpr":
+                    a = facts.strip_all(x["c"][0])
+                    out.append(("delete", "stored" if a.get("var") == stored else "new" if a.get("var") == pnew else "?"))
+                if x["k"] == "BinaryOperator" and x.get("op") == "=" and strip(x["c"][0]).get("var") == stored:
+                    out.append(("store", "new" if facts.strip_all(x["c"][1]).get("var") == pnew else "?"))
         return out
     bad = None
     try:
